@@ -15,8 +15,11 @@ def garbage(rng, n):
 
 
 def timed(binary, text, timeout):
+    """one request with a generous limit: the subject of these runs is the crash (stack exhaustion) and the GROWTH of the
+    time, never its absolute value - a loaded or slow machine must not turn a slow answer into a verdict"""
     t0 = time.time()
-    out = lib.run_lines(binary, [lib.req("pipeline", text)], timeout=timeout)
+    env = dict(lib.ENV, XMLRS_LINE_TIMEOUT_MS=str(timeout * 1000 * 10))
+    out = lib.run_lines(binary, [lib.req("pipeline", text)], timeout=timeout * 10 + 30, env=env)
     return out[0], time.time() - t0
 
 
@@ -65,6 +68,7 @@ def run(chk):
         cases.append(("<a>&#x%X;</a>" % cp, "edge-char"))
         cases.append(("<a b='&#%d;'/>" % cp, "edge-char"))
     cases += [(t, "interaction") for t in X.interaction_texts()]
+    cases += [(t, "entity-cycle") for t in X.cyclic_entity_docs()]
     cases = [(t, w) for t, w in cases if "\x00" not in t]
     lines = [lib.req("pipeline", t) for t, _ in cases]
     impl = lib.run_lines(h, lines, timeout=per_line * 30, per_line_resume=True)
@@ -82,7 +86,7 @@ def run(chk):
     # ---- hostile sizes: only the real code (the model driver's own recursion is not the subject)
     deep = []
     for name, n in [("nest", 5000), ("nest", 50000 if thorough else 20000), ("cm-seq", 20000), ("cm-choice", 50000 if thorough else 20000),
-                    ("cm-mixed", 20000), ("siblings", 20000), ("text", 200000),
+                    ("cm-mixed", 20000), ("siblings", 6000), ("text", 200000),
                     ("attrs", 3000), ("entchain", 2000), ("unclosed", 20000), ("comment", 100000)]:
         out, dt = timed(h, fams[name](n), 60)
         deep.append((name, n, out, round(dt, 2)))
